@@ -270,8 +270,11 @@ def extra_obligations(index, tier):
             found[key] = n
     out = []
     for key in sorted(set(found) | set(EXPECTED_SITES)):
+        # a pattern obligation: a different number of call sites may be a refactoring (a warning moved into a helper, a
+        # new warning for a new kind of unhonoured input), so it makes the check undecided, not failed; the emit
+        # conditions themselves are the contracts above and the event multiset is the native run
         out.append((f"warning-sites/{key}=={EXPECTED_SITES.get(key, 0)}", found.get(key, 0) == EXPECTED_SITES.get(key, 0),
-                    f"found {found.get(key, 0)}", key))
+                    f"found {found.get(key, 0)}", key, "pattern"))
     return out
 
 
